@@ -77,7 +77,9 @@ func (c *FileListChangesFileHash) UnmarshalControl(data string) error {
 type Changes struct {
 	Paragraph
 
-	Filename string
+	/* Where the file is, as the caller said: not a field of the document (a
+	 * "Filename:" field in there stays in Values). */
+	Filename string `control:"-"`
 
 	Format          string
 	Source          string
